@@ -20,6 +20,11 @@ git apply $src/patch.diff; apply_rc=$?
 timeout 600 go test -vet=off -count=1 -run 'ZZ|Demo' ./$dir/ > /tmp/mutc/results/$name.mut.log 2>&1; mut_rc=$?
 rm -f $wt/$dir/zz_demo*_test.go $wt/$dir/*demo_test.go
 timeout 3400 go test -vet=off -count=1 -timeout 25m ./... > /tmp/mutc/results/$name.suite.log 2>&1; suite_rc=$?
+if [ $suite_rc -ne 0 ]; then
+  # the existing suite has a randomised test that fails now and then under load: run the failing packages once more
+  pk=$(grep "^FAIL\s" /tmp/mutc/results/$name.suite.log | awk "{print \$2}" | sed "s#github.com/unixpickle/model3d#.#")
+  if [ -n "$pk" ]; then timeout 1800 go test -vet=off -count=1 -timeout 25m $pk > /tmp/mutc/results/$name.suite-retry.log 2>&1 && suite_rc=0; fi
+fi
 cd /
 git -C /repo worktree remove --force $wt
 echo "{\"name\":\"$name\",\"pkg\":\"$dir\",\"apply_rc\":$apply_rc,\"demo_clean_rc\":$clean_rc,\"demo_mut_rc\":$mut_rc,\"suite_mut_rc\":$suite_rc}" > /tmp/mutc/results/$name.json
